@@ -21,7 +21,7 @@ def mgrNames : List (String × Mgr) :=
    ("transfer+decline", .transferDecline), ("transfer+job", .transferJob), ("transfer+jobopen", .transferJobOpen),
    ("transfer+acceptro", .transferAcceptRO), ("transfer+jobopen-fail", .transferJobOpenFail),
    ("transfer+jobopen-short", .transferJobOpenShort), ("transfer+jobfailed", .transferJobFailed),
-   ("muc+room", .mucRoom), ("uploadRequest", .uploadRequest),
+   ("muc+room", .mucRoom), ("app", .app), ("app-old", .appOld), ("uploadRequest", .uploadRequest),
    ("vcard", .vcard), ("version", .version), ("accountMigration", .accountMigration),
    ("attention", .attention), ("callInvite", .callInvite), ("externalService", .externalService),
    ("httpUpload", .httpUpload), ("jmi", .jmi), ("messageReceipt", .messageReceipt), ("mix", .mix),
@@ -38,7 +38,10 @@ def tagOf : String → Tag
   | "vCard" => .vCard | "query" => .query | "time" => .time | "chat" => .chat | "list" => .list
   | "pref" => .pref | "fin" => .fin | "block" => .block | "unblock" => .unblock
   | "request" => .request | "slot" => .slot | "open" => .openT | "close" => .close | "data" => .data
-  | "si" => .si | "error" => .error | _ => .other
+  | "si" => .si | "error" => .error
+  | t => if t.startsWith "app-fresh" then .appFresh else if t.startsWith "app-echo" then .appEcho
+    else if t.startsWith "app-result" then .appResult else if t.startsWith "app-erroriq" then .appErrorIq
+    else if t.startsWith "app-error" then .appError else .other
 
 def nsOf : String → Ns
   | "vcard-temp" => .vcard
@@ -59,6 +62,7 @@ def nsOf : String → Ns
   | "http://jabber.org/protocol/si" => .si
   | "http://jabber.org/protocol/muc#admin" => .mucAdmin
   | "http://jabber.org/protocol/muc#owner" => .mucOwner
+  | "urn:example:app" => .app
   | _ => .other
 
 def typeOf : String → Option IqType
